@@ -530,7 +530,7 @@ static void run_iot(obj_t* o, const uint8_t* in, size_t in_len, const kv_t* kv, 
   bool wbfixed = kv_get(kv, "wbfixed", NULL) != NULL;
   if (wbfixed) wlen = kv_u64(kv, "wbfixed", 0);
   uint8_t* wmem = (uint8_t*)(wbfixed ? calloc(wlen ? wlen : 1, 1) : malloc(wlen ? wlen : 1));
-  if (!wbfixed) fill(wmem, wlen, kv_get(kv, "wfill", dfill));
+  if (!wbfixed || kv_get(kv, "wfill", NULL)) fill(wmem, wlen, kv_get(kv, "wfill", dfill));
   wuffs_base__slice_u8 wb = wuffs_base__make_slice_u8(wmem, wlen);
 
   if (!compact_mode) {
